@@ -1272,23 +1272,47 @@ Definition enc_size (sp : space) (pt : portrayal) (ags : list agent) : Z := nth 
 Definition altair_supported (sp : space) : Prop :=
   ((sp_altair sp = 1 \/ sp_altair sp = 2) /\ grid_family sp) \/ (sp_altair sp = 3 /\ has_pos sp).
 
-(* if all agents in the space portray the same set of keys, the chart encodes colour / size exactly when they do *)
-Lemma altair_encoding_uniform c ops kc ks :
+(* keys of all rows together *)
+Lemma oflag_setdefault {A} (a b : option A) : oflag (osetdefault a b) = 1 <-> oflag a = 1 \/ oflag b = 1.
+Proof. destruct a, b; simpl; split; intros H; try tauto; try discriminate; destruct H; discriminate. Qed.
+
+Lemma union_flag (proj : pdict -> option Z) :
+  (forall a d, proj (pd_union a d) = osetdefault (proj a) (proj d)) ->
+  forall l acc,
+  oflag (proj (fold_left pd_union l acc)) = 1 <-> oflag (proj acc) = 1 \/ exists d, In d l /\ oflag (proj d) = 1.
+Proof.
+  intros Hp. induction l as [|d t IH]; intros acc; simpl.
+  - split; [tauto|]. intros [H|[d [[] _]]]. exact H.
+  - rewrite IH, Hp, oflag_setdefault. split.
+    + intros [[H|H]|[d' [Hin H]]]; [tauto|right; exists d; tauto|right; exists d'; tauto].
+    + intros [H|[d' [[->|Hin] H]]]; [tauto|tauto|right; exists d'; tauto].
+Qed.
+
+(* THE encodings theorem (code as repaired): after any history on an Altair-supported space the chart has a
+   colour (size) encoding exactly when some agent in the space has a colour (size) in its portrayal *)
+Lemma altair_encoding_all_rows c ops :
   let sp := c_space c in let pt := c_portrayal c in
   let st := exec sp pt (init_state c) ops in
-  altair_supported sp -> st_agents st <> [] ->
-  (forall a, In a (st_agents st) -> oflag (pd_color (portray pt (a_kind a))) = kc /\
-                                     oflag (pd_size (portray pt (a_kind a))) = ks) ->
-  enc_color sp pt (st_agents st) = kc /\ enc_size sp pt (st_agents st) = ks.
+  altair_supported sp ->
+  (enc_color sp pt (st_agents st) = 1 <-> exists a, In a (st_agents st) /\ oflag (pd_color (portray pt (a_kind a))) = 1) /\
+  (enc_size sp pt (st_agents st) = 1 <-> exists a, In a (st_agents st) /\ oflag (pd_size (portray pt (a_kind a))) = 1).
 Proof.
-  intros sp pt st Hsup Hne Hall.
+  intros sp pt st Hsup.
   destruct (altair_one_row_each c ops Hsup) as [rows [Hr Hp]]. fold sp pt st in Hr, Hp.
-  unfold enc_color, enc_size, obs_altair_enc. rewrite Hr.
-  destruct rows as [|r t].
-  - apply Permutation_nil in Hp. apply map_eq_nil in Hp. contradiction.
-  - assert (Hin : In r (map (arow_of pt) (st_agents st))) by (eapply Permutation_in; [exact Hp|left; reflexivity]).
-    apply in_map_iff in Hin. destruct Hin as [a [Ha Hin]]. subst r. cbn [ar_d arow_of nth].
-    destruct (Hall a Hin) as [H1 H2]. split; assumption.
+  unfold enc_color, enc_size, obs_altair_enc. rewrite Hr. cbn [nth]. unfold rows_union.
+  assert (Hex : forall proj : pdict -> option Z,
+            (exists d, In d (map ar_d rows) /\ oflag (proj d) = 1) <->
+            (exists a, In a (st_agents st) /\ oflag (proj (portray pt (a_kind a))) = 1)).
+  { intros proj. split.
+    - intros [d [Hin H]]. apply in_map_iff in Hin. destruct Hin as [r [<- Hin]].
+      apply (Permutation_in _ Hp) in Hin. apply in_map_iff in Hin. destruct Hin as [a [<- Ha]].
+      exists a. split; [exact Ha|exact H].
+    - intros [a [Ha H]]. exists (portray pt (a_kind a)). split; [|exact H].
+      apply in_map_iff. exists (arow_of pt a). split; [reflexivity|].
+      apply (Permutation_in _ (Permutation_sym Hp)). apply in_map. exact Ha. }
+  split.
+  - rewrite (union_flag pd_color (fun a d => eq_refl)). rewrite Hex. simpl. split; [intros [H|H]; [discriminate|exact H]|tauto].
+  - rewrite (union_flag pd_size (fun a d => eq_refl)). rewrite Hex. simpl. split; [intros [H|H]; [discriminate|exact H]|tauto].
 Qed.
 
 (* layers: within [vmin, vmax] distinct values are shown differently, in every mode *)
